@@ -169,27 +169,44 @@ Theorem C14_refines_json :
 Proof. exact put_refines. Qed.
 Print Assumptions C14_refines_json.
 
-(* ---------- PANICS ---------- *)
-(* "no path operation panics" is refuted: "-" on an empty list indexes elems[-1] (finding C14/panic-last-on-empty) *)
-Theorem C14_last_on_empty_refuted :
-  exists (ps : list part) (n : node), lookup ps n = Panic.
-Proof. exact (ex_intro _ _ (ex_intro _ _ last_on_empty_panics)). Qed.
-Print Assumptions C14_last_on_empty_refuted.
-
-(* ... and that is the only way Lookup panics: some "-" part reached an empty list or a null node *)
-Theorem C14_lookup_panic_only_last :
-  forall (ps : list part) (n : node),
-    lookup ps n = Panic ->
-    exists ps1 ps2 x, ps = (ps1 ++ PLast :: ps2)%list /\ lookup ps1 n = Ok (Some x) /\ (x = Seq [] \/ is_null x = true).
-Proof. exact lookup_panic_char. Qed.
-Print Assumptions C14_lookup_panic_only_last.
-
-(* what does hold: without "-" in the path no walk panics (unless the continuation does) *)
-Theorem C14_no_panic_partial :
+(* ---------- NO PANIC ---------- *)
+(* No path operation panics, for all paths and all documents. (Until the repo fix 5cf7cc6, "-" on an empty or
+   null sequence indexed elems[-1]: former finding C14/panic-last-on-empty, former theorems
+   C14_last_on_empty_refuted / C14_lookup_panic_only_last / C14_no_panic_partial.) *)
+Theorem C14_no_panic :
   forall (A : Type) (cr : option kind) (ps : list part) (k : node -> res (node * A)),
-    has_last ps = false -> (forall x, k x <> Panic) -> forall n, walk cr ps k n <> Panic.
+    (forall x, k x <> Panic) -> forall n, walk cr ps k n <> Panic.
 Proof. exact (@walk_no_panic). Qed.
-Print Assumptions C14_no_panic_partial.
+Print Assumptions C14_no_panic.
+
+Theorem C14_no_panic_lookup : forall (ps : list part) (n : node), lookup ps n <> Panic.
+Proof. exact lookup_no_panic. Qed.
+Print Assumptions C14_no_panic_lookup.
+
+Theorem C14_no_panic_lookup_create :
+  forall (leaf : kind) (ps : list part) (n : node), lookup_create leaf ps n <> Panic.
+Proof. exact lookup_create_no_panic. Qed.
+Print Assumptions C14_no_panic_lookup_create.
+
+Theorem C14_no_panic_put :
+  forall (nonstr : string -> bool) (ps : list part) (name : string) (v n : node),
+    put nonstr ps name v n <> Panic /\ put_nocreate nonstr ps name v n <> Panic.
+Proof. exact (fun nonstr ps name v n => conj (put_no_panic nonstr ps name v n) (put_nocreate_no_panic nonstr ps name v n)). Qed.
+Print Assumptions C14_no_panic_put.
+
+Theorem C14_no_panic_put_scalar_clear :
+  forall (ps : list part) (name : string) (v n : node),
+    put_scalar ps v n <> Panic /\ clear_at ps name n <> Panic.
+Proof. exact (fun ps name v n => conj (put_scalar_no_panic ps v n) (clear_at_no_panic ps name n)). Qed.
+Print Assumptions C14_no_panic_put_scalar_clear.
+
+(* "-" on an empty list or a null node finds nothing *)
+Theorem C14_last_on_empty_absent :
+  forall (A : Type) (cr : option kind) (ps : list part) (k : node -> res (node * A)) (s : style) (v : string),
+    walk cr (PLast :: ps) k (Seq []) = Ok (Seq [], None) /\
+    walk cr (PLast :: ps) k (Scalar TNull s v) = Ok (Scalar TNull s v, None).
+Proof. exact (fun A cr ps k s v => conj (walk_last_on_empty cr ps k) (walk_last_on_null cr ps k s v)). Qed.
+Print Assumptions C14_last_on_empty_absent.
 
 (* ---------- the hypotheses cannot be dropped ---------- *)
 (* without (H1): the put succeeds but the path no longer finds the element *)
